@@ -697,8 +697,11 @@ class C15(Check):
             if thunk_args is None:
                 return
             kw_big = thunk_args
+            # the block keeps the full extent along one (seeded) axis, so that slabs / tiles along that
+            # axis on the large array meet inside the block
+            keep = prng.np_rng(p["sub"], "keep_axis").integers(0, dim)
             lo = [int(n // 2) - blk // 2 - halo for n in big]
-            sl_halo = tuple(slice(a, a + blk + 2 * halo) for a in lo)
+            sl_halo = tuple(slice(0, big[ax]) if ax == keep else slice(lo[ax], lo[ax] + blk + 2 * halo) for ax in range(dim))
             kw_blk = {}
             for k, v in kw_big.items():
                 if isinstance(v, np.ndarray):
@@ -710,7 +713,7 @@ class C15(Check):
                 inner(**kw_blk)
                 inner(**kw_big)
             eps = float(np.finfo(real_t).eps)
-            core = tuple(slice(halo, halo + blk) for _ in range(dim))
+            core = tuple(slice(halo, big[ax] - halo) if ax == keep else slice(halo, halo + blk) for ax in range(dim))
             for k, v in kw_big.items():
                 if not isinstance(v, np.ndarray):
                     continue
